@@ -32,8 +32,23 @@ int xerbla_(char *s, int *i) { g_xerbla_calls++; return 0; }
 }
 void superlu_free(void *p) { __CPROVER_assert(p == (void *)g_work && g_n_alloc == 1 && g_n_free == 0, "work released once, after its allocation"); g_n_free++; }
 #if @cplx@
-/* complex division (SRC/?complex.c): result havocked, operands must be entries of x / Lval */
-void @p@_div(@T@ *c, @T@ *a, @T@ *b) { int p = POIS(*a); @T@ v = nondet_@T@(); __CPROVER_assume(!p || POIS(v)); *c = v; }   /* NaN numerator -> NaN quotient */
+/* complex division (SRC/?complex.c): only the one-column supernodes of the U solves divide, x[fsupc] := x[fsupc] / d with d the diagonal
+ * entry Lval[L_NZ_START(fsupc)] (its conjugate in the 'C' branch) -- asserted by VALUE (the 'C' branch passes a temporary); result havocked */
+void @p@_div(@T@ *c, @T@ *a, @T@ *b) {
+  __CPROVER_assert(c == a && __CPROVER_same_object(a, in_x), "div: x entry divided in place");
+  long f = a - in_x;
+  __CPROVER_assert(0 <= f && f < NN, "div: x offset is a column");
+  int_t s = SUPOF(f);
+  __CPROVER_assert(f == XS(s) && NSUPC(s) == 1, "div: the entry of a one-column supernode");
+  __CPROVER_assert(0 <= NZB(s) && NZB(s) < LUC, "div: diagonal entry inside Lval");
+  @T@ d = in_lval[NZB(s)];
+#if BR == 5 || BR == 4
+  __CPROVER_assert((d.r != d.r || b->r == d.r) && (d.i != d.i || b->i == -d.i), "div: divisor is the conjugate of the supernode's diagonal entry");
+#else
+  __CPROVER_assert((d.r != d.r || b->r == d.r) && (d.i != d.i || b->i == d.i), "div: divisor is the supernode's diagonal entry");
+#endif
+  int p = POIS(*a); @T@ v = nondet_@T@(); __CPROVER_assume(!p || POIS(v)); *c = v;   /* NaN numerator -> NaN quotient */
+}
 #endif
 
 /* ---- triangular solve with the nsupc x nsupc diagonal block of ONE supernode: x[fsupc .. fsupc+nsupc) := inv(op(T)) x[...] ---- */
